@@ -196,6 +196,11 @@ def run(ctx, prog):
         eqs = [c for c in p.find_calls(r'PartialEq.*>::(eq|ne)$') if mentions(c.args, r'^did$')]
         if len(eqs) != 1:
             return 'identifier not compared with the document id'
+        # the comparison is between whole DIDs (value or full text), not between parts of them
+        parts = [a_[1] for arg in eqs[0].args for a_ in apps(arg, r'.') if not re.search(
+            r'AsRef<.*>>::as_ref$|Deref>::deref$|Borrow<.*>>::borrow$|Clone>::clone$|::as_str$|ToString>::to_string$|Into<.*>>::into$|From<.*>>::from$', a_[1])]
+        if parts:
+            return 'self-reference test compares parts of the identifiers (%s), not the identifiers' % parts[0].split('::')[-1]
         same = p.took(eqs[0].ret, 'true' if eqs[0].name.endswith('::eq') else 'false')
         t = p.term()
         if same:
@@ -203,6 +208,36 @@ def run(ctx, prog):
                 else 'self reference not replaced by the placeholder'
         return None if strip(t) == ('leaf', 'did') else 'foreign DID altered while packing'
     A.require('pack/closure-replaces-only-self-references', paths, r_pack_closure, replay=REPLAY)
+
+
+def serde_skips(ctx, prog):
+    """derived Serialize of the packed structures: a member is left out only when it is absent / empty (skip_serializing_if =
+    Option::is_none / is_empty on that member), never because of its value - otherwise Some(default) does not survive pack/unpack"""
+    A = Auditor(ctx, prog)
+    RB = {'scenario': 'state_metadata', 'cex': {'only': '[metadata]'}}
+    for label, rx in (('IotaDocumentMetadata', r'iota_document_metadata::_::<impl at [^>]*>::serialize$'),
+                      ('StateMetadataDocument', r'state_metadata::document::_::<impl at [^>]*>::serialize$')):
+        fs = prog.find(rx)
+        if len(fs) != 1:
+            raise Refuse('derived Serialize of %s: %d candidates' % (label, len(fs)))
+        paths, ex = A.paths(fs[0], max_depth=2)
+
+        def r_skip(p, label=label):
+            if p.kind != 'return':
+                return None
+            for c in p.calls:
+                if c.inlined or c.ret is None:
+                    continue
+                decided = p.took(c.ret, 'true') or p.took(c.ret, 'false')
+                if not decided:
+                    continue
+                if re.search(r'Option(<.*>)?::is_none$|::is_empty$', c.name) and mentions(c.args, r'^self$'):
+                    continue
+                if re.search(r'Serialize|serialize|Serializer', c.name):
+                    continue
+                return 'member skipped by %s, not by absence / emptiness' % c.name.split('::')[-1]
+            return None
+        A.require('%s::serialize/members-skipped-only-when-absent-or-empty' % label, paths, r_skip, replay=RB)
 
 
 def maps(ctx):
@@ -376,3 +411,4 @@ def main(ctx):
                     'document shapes, metadata contents']
     guarded(ctx, 'state metadata framing and rebasing', 'M', lambda: run(ctx, prog))
     guarded(ctx, 'rewriting primitives (map / try_map)', 'M', lambda: maps(ctx))
+    guarded(ctx, 'serde skip predicates of the packed structures', 'M', lambda: serde_skips(ctx, prog))
